@@ -477,6 +477,7 @@ static void describe_packet (const char *tag, const struct sockaddr_in *from, co
         stun_message_get_method (&m), role, (unsigned long long) tie, prio, usec, code,
         stun_message_has_attribute (&m, STUN_ATTRIBUTE_MESSAGE_INTEGRITY) ? 1 : 0);
     print_hex (id, 16);
+    if (trace_packets >= 2) { printf (" hex="); print_hex (d, len); }
     printf ("\n");
   } else {
     printf ("data ");
@@ -549,37 +550,61 @@ typedef struct {
 } Server;
 static Server servers[8]; static int n_servers = 0;
 
-/* behaviours, one letter per request (last letter repeats):
- *  d drop | s success | S success twice | l late success (+700ms) | e error 400 | E error 500 | u 401 with realm/nonce
- *  n 438 stale nonce | r 300 try-alternate (to 127.0.0.99:3478) | g garbage | x answer with a different txid
- *  m unauthenticated success (turn) | 6 success with an IPv6 mapped address */
+static bool srv_validater (StunAgent *agent, StunMessage *message, uint8_t *username, uint16_t username_len,
+    uint8_t **password, size_t *password_len, void *user_data)
+{
+  Server *s = user_data;
+  if (username_len != strlen (s->user) || memcmp (username, s->user, username_len)) return FALSE;
+  *password = (uint8_t *) s->pass; *password_len = strlen (s->pass);
+  return TRUE;
+}
+
+/* behaviours, one letter per request (the last letter repeats):
+ *  d drop | s success | S success twice | l late success (+700 ms) | e error 400 | E error 500 | u 401 with realm/nonce
+ *  n 438 stale nonce | r 300 try-alternate (127.0.0.99:3478) | g garbage | x success carrying another transaction id
+ *  m success WITHOUT message integrity (turn) | 6 success with an IPv6 mapped address
+ *  a (turn) authenticate: valid long-term credentials -> signed success, otherwise 401 with realm/nonce */
 static void srv_reply (Server *s, Dgram *g, char b)
 {
   StunAgent sa; StunMessage req, resp; uint8_t buf[1500]; size_t len = 0;
-  static const uint16_t known[] = { 0 };
+  static const uint16_t known[] = { STUN_ATTRIBUTE_REQUESTED_TRANSPORT, STUN_ATTRIBUTE_LIFETIME, STUN_ATTRIBUTE_USERNAME,
+    STUN_ATTRIBUTE_REALM, STUN_ATTRIBUTE_NONCE, STUN_ATTRIBUTE_MESSAGE_INTEGRITY, STUN_ATTRIBUTE_SOFTWARE,
+    STUN_ATTRIBUTE_FINGERPRINT, STUN_ATTRIBUTE_XOR_PEER_ADDRESS, STUN_ATTRIBUTE_CHANNEL_NUMBER, STUN_ATTRIBUTE_DATA,
+    STUN_ATTRIBUTE_DONT_FRAGMENT, STUN_ATTRIBUTE_EVEN_PORT, 0 };
   struct sockaddr_in mapped = g->from;
   uint64_t due = verif_now_us + 1000;
+  StunValidationStatus vs = STUN_VALIDATION_SUCCESS;
+  int authed = 0;
   memset (&req, 0, sizeof req);
-  stun_agent_init (&sa, known, STUN_COMPATIBILITY_RFC5389, STUN_AGENT_USAGE_IGNORE_CREDENTIALS);
-  req.buffer = g->data; req.buffer_len = g->len; req.agent = &sa;
   if (g->len < 20 || stun_message_validate_buffer_length (g->data, g->len, TRUE) != (int) g->len) return;
-  if (stun_message_get_class (&req) != STUN_REQUEST) return;  /* indications (keepalives) ignored */
+  if (s->kind == 1) {
+    stun_agent_init (&sa, known, STUN_COMPATIBILITY_RFC5389, STUN_AGENT_USAGE_LONG_TERM_CREDENTIALS);
+    vs = stun_agent_validate (&sa, &req, g->data, g->len, srv_validater, s);
+    authed = (vs == STUN_VALIDATION_SUCCESS || vs == STUN_VALIDATION_UNKNOWN_REQUEST_ATTRIBUTE) && req.key != NULL;
+    if (req.buffer == NULL) { req.buffer = g->data; req.buffer_len = g->len; req.agent = &sa; }
+  } else {
+    stun_agent_init (&sa, known, STUN_COMPATIBILITY_RFC5389, STUN_AGENT_USAGE_IGNORE_CREDENTIALS);
+    req.buffer = g->data; req.buffer_len = g->len; req.agent = &sa;
+  }
+  if (stun_message_get_class (&req) != STUN_REQUEST) return;  /* indications ignored */
   s->nreq++;
-  printf ("ev t=%llu server %s:%u req method=%d behaviour=%c\n", (unsigned long long) now_ms (),
-      inet_ntoa (s->addr.sin_addr), ntohs (s->addr.sin_port), stun_message_get_method (&req), b);
+  if (b == 'a') b = authed ? 's' : 'u';
+  printf ("ev t=%llu server %s:%u req method=%d behaviour=%c authed=%d\n", (unsigned long long) now_ms (),
+      inet_ntoa (s->addr.sin_addr), ntohs (s->addr.sin_port), stun_message_get_method (&req), b, authed);
   if (b == 'd') return;
   if (b == 'g') { uint8_t junk[40]; int i; for (i = 0; i < 40; i++) junk[i] = rng_next (); enqueue (&s->addr, &g->from, junk, 40, due); return; }
   if (b == 'l') due += 700000;
   if (b == 's' || b == 'S' || b == 'l' || b == 'x' || b == 'm' || b == '6') {
-    stun_agent_init_response (&sa, &resp, buf, sizeof buf, &req);
-    if (b == 'x') resp.buffer[10] ^= 0x55;
+    if (b == 'm') { req.key = NULL; req.key_len = 0; req.long_term_valid = FALSE; }
+    if (!stun_agent_init_response (&sa, &resp, buf, sizeof buf, &req)) return;
     if (b == '6') {
       struct sockaddr_in6 m6; memset (&m6, 0, sizeof m6); m6.sin6_family = AF_INET6; m6.sin6_port = htons (4242);
       inet_pton (AF_INET6, "2001:db8::7", &m6.sin6_addr);
       stun_message_append_xor_addr (&resp, STUN_ATTRIBUTE_XOR_MAPPED_ADDRESS, (struct sockaddr_storage *) &m6, sizeof m6);
     } else {
-      /* pretend a NAT: map to 192.0.2.x with the same port */
-      inet_pton (AF_INET, "192.0.2.10", &mapped.sin_addr);
+      /* pretend a NAT: map to 192.0.2.<last octet of the server> with the same port */
+      char ip[32]; snprintf (ip, sizeof ip, "192.0.2.%u", (unsigned) (ntohl (s->addr.sin_addr.s_addr) & 0xff));
+      inet_pton (AF_INET, ip, &mapped.sin_addr);
       stun_message_append_xor_addr (&resp, STUN_ATTRIBUTE_XOR_MAPPED_ADDRESS, (struct sockaddr_storage *) &mapped, sizeof mapped);
     }
     if (s->kind == 1 && stun_message_get_method (&req) == STUN_ALLOCATE) {
@@ -588,12 +613,15 @@ static void srv_reply (Server *s, Dgram *g, char b)
       stun_message_append32 (&resp, STUN_ATTRIBUTE_LIFETIME, 600);
     }
     len = stun_agent_finish_message (&sa, &resp, NULL, 0);
+    if (b == 'x' && len > 10) buf[10] ^= 0x55;
   } else {
     int code = b == 'e' ? 400 : b == 'E' ? 500 : b == 'u' ? 401 : b == 'n' ? 438 : b == 'r' ? 300 : 400;
-    stun_agent_init_error (&sa, &resp, buf, sizeof buf, &req, code);
+    req.key = NULL; req.key_len = 0; req.long_term_valid = FALSE;
+    if (!stun_agent_init_error (&sa, &resp, buf, sizeof buf, &req, code)) return;
     if (b == 'u' || b == 'n') {
+      char nonce[32]; snprintf (nonce, sizeof nonce, "nonce-%lu", s->nreq);
       stun_message_append_string (&resp, STUN_ATTRIBUTE_REALM, "verif.realm");
-      stun_message_append_string (&resp, STUN_ATTRIBUTE_NONCE, b == 'u' ? "nonce-one" : "nonce-two");
+      stun_message_append_string (&resp, STUN_ATTRIBUTE_NONCE, nonce);
     }
     if (b == 'r') {
       struct sockaddr_in alt = s->addr; inet_pton (AF_INET, "127.0.0.99", &alt.sin_addr);
@@ -832,8 +860,9 @@ int main (void)
       else puts ("err bad inject");
       free (b);
     }
-    else if (!strcmp (w[0], "server") && n == 4 && n_servers < 8) {
+    else if (!strcmp (w[0], "server") && n >= 4 && n_servers < 8) {
       Server *s = &servers[n_servers]; memset (s, 0, sizeof *s);
+      snprintf (s->user, sizeof s->user, "%s", n >= 5 ? w[4] : "user"); snprintf (s->pass, sizeof s->pass, "%s", n >= 6 ? w[5] : "pass");
       if (parse_ipport (w[1], &s->addr)) { s->kind = !strcmp (w[2], "turn"); snprintf (s->script, sizeof s->script, "%s", w[3]); n_servers++; puts ("ok"); }
       else puts ("err bad server");
     }
